@@ -167,7 +167,7 @@ def sim_cases():
     ops = g.worker_ops + [
         g.op_apply(limits=True, unpicklable=True), g.op_apply(), g.op_apply(),
         g.op_map(), g.work, g.work, g.work, g.run, g.feed, g.feed_fault, g.tick,
-        g.tick, g.adv, g.adv_lim, g.die, g.dier, g.wexit, g.scan, g.scan,
+        g.tick, g.adv, g.adv_lim, g.die_any, g.dier, g.dier0, g.wexit, g.scan, g.scan,
         g.grow, g.shrink, g.close, g.hterm,
     ]
     return g.history(cfg, ops, max_ops=70, min_ops=15)
